@@ -26,6 +26,9 @@ type scriptedReader struct {
 	afterEnd int // reads issued after the end was signalled
 	ended    bool
 	one      bool // all single-byte
+	// zeros > 0: every data read is preceded by that many reads returning (0, nil) ("nothing happened", io.Reader)
+	zeros   int
+	zeroCnt int
 }
 
 func (r *scriptedReader) Read(p []byte) (int, error) {
@@ -41,6 +44,11 @@ func (r *scriptedReader) Read(p []byte) (int, error) {
 	if len(p) == 0 {
 		return 0, nil
 	}
+	if r.zeroCnt < r.zeros {
+		r.zeroCnt++
+		return 0, nil
+	}
+	r.zeroCnt = 0
 	// current chunk limit
 	for r.ci < len(r.cuts) && r.cuts[r.ci] <= r.pos {
 		r.ci++
@@ -278,6 +286,7 @@ func runC02(t *testing.T, tape *sim.Tape, tier string) *Outcome {
 	wrapNames := []string{"", " behind bufio(16)", " behind bufio(4096)"}
 	checkW := func(r *scriptedReader, desc string, wrap int, deferred bool) {
 		o.Evals++
+		sim.Progress.Add(1) // a run with a wide array or a 128 KiB bulk takes seconds under load: every delivery is progress
 		if deferred {
 			desc += " values inspected at the end"
 		}
@@ -305,6 +314,7 @@ func runC02(t *testing.T, tape *sim.Tape, tier string) *Outcome {
 		}
 		o.stat("two_way_splits", len(data)-1)
 		check(&scriptedReader{data: data, one: true}, "all-1-byte")
+		check(&scriptedReader{data: data, one: true, zeros: 1}, "all-1-byte, an empty read before each")
 		o.stat("all_one_byte", 1)
 	}
 	// large bulks: 2-way splits in a window around every power-of-two offset of the payload (where growing
@@ -374,6 +384,11 @@ func runC02(t *testing.T, tape *sim.Tape, tier string) *Outcome {
 			o.stat("eof_piggyback", 1)
 		}
 		checkW(&scriptedReader{data: data, cuts: cuts, piggy: piggy}, fmt.Sprintf("cuts%v piggy=%t", cuts, piggy), tape.Draw(3, "wrap"), tape.Draw(2, "deferred") == 1)
+		// the same partition with empty reads ((0, nil): nothing happened) in front of every data read
+		if z := tape.Draw(4, "zeros"); z > 0 {
+			checkW(&scriptedReader{data: data, cuts: cuts, piggy: piggy, zeros: z}, fmt.Sprintf("cuts%v piggy=%t, %d empty reads before each data read", cuts, piggy, z), 0, false)
+			o.stat("deliveries_with_empty_reads", 1)
+		}
 		o.stat("kway_partitions", 1)
 		for _, c := range cuts {
 			if c > 0 && c < len(data) && data[c-1] == '\r' && data[c] == '\n' {
@@ -397,7 +412,7 @@ func init() {
 	register(&Check{
 		ID: "C02", Bubble: false, Run: runC02,
 		Runs:   map[string]int{"quick": 6000, "thorough": 200000},
-		Rule:   "a case is one (value sequence, read partition) pair: every 2-way split and the all-1-byte delivery of each generated stream <= 4 KiB plus 4 seeded k-way partitions biased to structural offsets; for streams with bulks of 1 KiB..128 KiB every split within [-20,+4] bytes of each power-of-two offset of the payload; every split is also delivered through a bufio.Reader (16-byte and default buffer) in front of the chunking reader with the returned messages inspected only after the whole stream was parsed (a parsed value must not change when the parser reads on), end of stream arriving alone or together with the last bytes; distinct = distinct (stream, partition) hashes; non-trivial = stream longer than 4 bytes",
+		Rule:   "a case is one (value sequence, read partition) pair: every 2-way split and the all-1-byte delivery of each generated stream <= 4 KiB plus 4 seeded k-way partitions biased to structural offsets; for streams with bulks of 1 KiB..128 KiB every split within [-20,+4] bytes of each power-of-two offset of the payload; every split is also delivered through a bufio.Reader (16-byte and default buffer) in front of the chunking reader with the returned messages inspected only after the whole stream was parsed (a parsed value must not change when the parser reads on), end of stream arriving alone or together with the last bytes; deliveries with 1..3 empty reads (0 bytes, no error) in front of every data read; distinct = distinct (stream, partition) hashes; non-trivial = stream longer than 4 bytes",
 		Real:   []string{"redis/proto parser (NewParserWithReader, Next)"},
 		Stub:   []string{"transport: scripted io.Reader deciding read sizes and end-of-stream style"},
 		Assume: []string{"readers never return (0, nil)"},
